@@ -17,6 +17,11 @@ var (
 	bigPort = new(big.Int).SetUint64(65535)
 )
 
+// canonical: a digit string without superfluous leading zeros. Only for those does the
+// monitor insist that an in-range value is ACCEPTED (the statement is about exactness and
+// rejection of what does not fit; refusing padded forms would not contradict it).
+func canonical(s string) bool { return s == "0" || (len(s) > 0 && s[0] != '0') }
+
 func bigOf(s string) *big.Int {
 	v, ok := new(big.Int).SetString(s, 10)
 	if !ok {
@@ -82,7 +87,7 @@ func checkNumber(w *core.Worker, rr *core.Rand, s string) {
 			case v.Cmp(bigU32) > 0:
 				w.Inc("cseq_rejected_out_of_range")
 			}
-			if v.Cmp(bigU32) <= 0 && len(s) <= 10 && e != sipsp.ErrHdrOk {
+			if v.Cmp(bigU32) <= 0 && canonical(s) && e != sipsp.ErrHdrOk {
 				fail("cseq-rejects-valid", fmt.Sprintf("ParseCSeqVal(%q) -> %s although %s fits 32 bits and 10 digits", in, errName(e), s), in, "")
 			}
 		}
@@ -111,9 +116,9 @@ func checkNumber(w *core.Worker, rr *core.Rand, s string) {
 				} else if !inRange {
 					fail("uint-out-of-range-accepted/"+name, fmt.Sprintf("%s(%q) succeeded although %s is outside the documented range", name, in, s), in, "")
 				}
-			} else if inRange {
+			} else if inRange && canonical(s) {
 				fail("uint-rejects-valid/"+name, fmt.Sprintf("%s(%q) -> %s although %s is in range", name, in, errName(e), s), in, "")
-			} else {
+			} else if !inRange {
 				w.Inc("uint_rejected_out_of_range")
 			}
 		}
@@ -210,9 +215,9 @@ func checkNumber(w *core.Worker, rr *core.Rand, s string) {
 			if txt != s || new(big.Int).SetUint64(uint64(u.PortNo)).Cmp(v) != 0 {
 				fail("port-wrong", fmt.Sprintf("ParseURI(%q) succeeded with PortNo=%d Port=%q; the digit string is %s", in, u.PortNo, txt, s), in, "D5")
 			}
-		} else if v.Cmp(bigPort) <= 0 {
+		} else if v.Cmp(bigPort) <= 0 && canonical(s) {
 			fail("port-rejects-valid", fmt.Sprintf("ParseURI(%q) -> %v although port %s <= 65535", in, e, s), in, "")
-		} else {
+		} else if v.Cmp(bigPort) > 0 {
 			w.Inc("port_rejected_out_of_range")
 		}
 	}
@@ -250,7 +255,7 @@ func checkNumber(w *core.Worker, rr *core.Rand, s string) {
 				if mx != want && v.Cmp(bigU32) <= 0 {
 					fail("message-max-expires", fmt.Sprintf("message: MaxExpires()=%d for %s", mx, s), in, "")
 				}
-			} else if v.Cmp(bigU32) <= 0 && len(s) <= 10 {
+			} else if v.Cmp(bigU32) <= 0 && canonical(s) {
 				fail("message-rejects-valid", fmt.Sprintf("message with CSeq/Expires %s rejected: %s", s, errName(e)), in, "")
 			}
 		}
@@ -259,7 +264,7 @@ func checkNumber(w *core.Worker, rr *core.Rand, s string) {
 
 // RunC10 is the monitor for C10.
 func RunC10(r *core.Run) {
-	r.Rule = "case = one digit string (length 1..40) placed in every numeric position: CSeq, Content-Length, Expires, plain uint, contact expires (3 carriers), contact q (integer and decimal forms), URI port (10 carriers incl. the user:pass-ambiguous path, numeric passwords and bracketed hosts; plus an exhaustive family where every accepted URI's PortNo must equal its Port text), and a whole message (CSeq + Expires + contact expires), one-shot and with cuts inside the digits; oracle = math/big value of the digit string: success => reported number == value, reported text == digits, value within the documented range; out of range => rejected / saturated (contact expires) / unset and flagged (q); in-range values without excess digits must be accepted; non-trivial = every digit string (each is placed in ~60 parser runs); distinct by construction (the string set is duplicate free)"
+	r.Rule = "case = one digit string (length 1..40) placed in every numeric position: CSeq, Content-Length, Expires, plain uint, contact expires (3 carriers), contact q (integer and decimal forms), URI port (10 carriers incl. the user:pass-ambiguous path, numeric passwords and bracketed hosts; plus an exhaustive family where every accepted URI's PortNo must equal its Port text), and a whole message (CSeq + Expires + contact expires), one-shot and with cuts inside the digits; oracle = math/big value of the digit string: success => reported number == value, reported text == digits, value within the documented range; out of range => rejected / saturated (contact expires) / unset and flagged (q); in-range values written without leading zeros must be accepted (padded forms may be refused); non-trivial = every digit string (each is placed in ~60 parser runs); distinct by construction (the string set is duplicate free)"
 	r.Assume = []string{"documented ranges: CSeq, Expires 2^32-1 (CSeq at most 10 digits); Content-Length <= 2^24 and at most 9 digits; port <= 65535; q in [0,1] with at most 3 decimals; contact expires saturates at 2^32-1"}
 	rr0 := core.NewRand(r.Seed, 0xC10)
 	nums := gen.NumStrings(rr0, int(r.Pick(30000, 6000000)))
